@@ -349,12 +349,15 @@ func validateFileContracts(ms *MidState, txn types.Transaction, ts V1Transaction
 			return leaf[:]
 		}
 	}
-	storageProofRoot := func(leafIndex uint64, filesize uint64, leaf []byte, proof []types.Hash256) types.Hash256 {
+	storageProofRoot := func(leafIndex uint64, filesize uint64, leaf []byte, proof []types.Hash256) (types.Hash256, bool) {
 		buf := make([]byte, 1+leafSize)
 		buf[0] = 0 // leaf hash prefix
 		copy(buf[1:], leaf)
 		root := types.HashBytes(buf)
 		subtreeHeight := bits.Len64(leafIndex ^ lastLeafIndex(filesize))
+		if filesize != 0 && len(proof) < subtreeHeight {
+			return types.Hash256{}, false // proof too short for this leaf
+		}
 		for i, h := range proof {
 			if leafIndex&(1<<i) != 0 || i >= subtreeHeight {
 				root = blake2b.SumPair(h, root)
@@ -362,7 +365,7 @@ func validateFileContracts(ms *MidState, txn types.Transaction, ts V1Transaction
 				root = blake2b.SumPair(root, h)
 			}
 		}
-		return root
+		return root, true
 	}
 
 	for i, sp := range txn.StorageProofs {
@@ -382,7 +385,7 @@ func validateFileContracts(ms *MidState, txn types.Transaction, ts V1Transaction
 		leaf := storageProofLeaf(leafIndex, fc.Filesize, sp.Leaf)
 		if leaf == nil {
 			continue
-		} else if storageProofRoot(leafIndex, fc.Filesize, leaf, sp.Proof) != fc.FileMerkleRoot {
+		} else if root, ok := storageProofRoot(leafIndex, fc.Filesize, leaf, sp.Proof); !ok || root != fc.FileMerkleRoot {
 			return fmt.Errorf("storage proof %v has root that does not match contract Merkle root", i)
 		}
 	}
